@@ -1,6 +1,7 @@
 import WM.Proto
 import WM.Spec.Codec
 import WM.Spec.CodecIndex
+import WM.Model.CodecBytes
 namespace WM.Drv.C10
 open WM.Proto WM.Codec
 
@@ -280,6 +281,39 @@ def handle : List SExp → String
         | .error e => s!"err {e.name}"
         | .ok t => showTI docWire t
     | _, _ => "bad-op"
+  | [.atom "tibytes", w1, w2, df, mnl, mxl, mnid, mxid, ref] =>
+    -- `W3TermInfo.to_bytes()` then `from_bytes` and the fixed-position readers.  The float32 images of the
+    -- two weights arrive as 4-byte hex (struct packing is a parameter of the model); floats are shown as the
+    -- unsigned number of their 4 bytes.
+    let ref? : Option PostRef := match ref with
+      | .list [.atom "ext", o, l] => do
+        let o ← o.int?
+        let l ← l.int?
+        pure (.extent o l)
+      | .list [.atom "inl", h] => (h.atom? >>= hexBytes?).map .inlined
+      | _ => none
+    match w1.atom? >>= hexBytes?, w2.atom? >>= hexBytes?, df.nat?, SExp.opt? SExp.nat? mnl, mxl.nat?,
+        SExp.opt? SExp.int? mnid, SExp.opt? SExp.int? mxid, ref? with
+    | some b1, some b2, some df, some mnl, some mxl, some mnid, some mxid, some ref =>
+      let t : TermInfo Int := { weight := 0, df := df, minlength := mnl, maxlength := mxl, maxweight := 1,
+                                minid := mnid, maxid := mxid }
+      let packF : Rat → Bytes := fun w => if w == 0 then b1 else b2
+      let unpackF : Bytes → Rat := fun bs => (WM.Columns.unbe bs : Nat)
+      match tiToBytes packF t ref with
+      | none => "err StructError"
+      | some bs =>
+        match tiFromBytes unpackF bs with
+        | none => s!"ok {showHex bs} parse-err"
+        | some (p, r) =>
+          let showRef := match r with
+            | .extent o l => s!"(ext {o} {l})"
+            | .inlined q => s!"(inl {showHex q})"
+          let mm := tiReadMinMaxLength bs
+          s!"ok {showHex bs} ({showRat p.weight} {p.df} {showOpt toString p.minlength} {p.maxlength} " ++
+          s!"{showRat p.maxweight} {showOpt toString p.minid} {showOpt toString p.maxid} {showRef}) " ++
+          s!"({showRat (tiReadWeight unpackF bs)} {tiReadDocFreq bs} {showOpt toString mm.1} {showOpt toString mm.2} " ++
+          s!"{showRat (tiReadMaxWeight unpackF bs)})"
+    | _, _, _, _, _, _, _, _ => "bad-op"
   | [.atom "l2b", n] =>
     match SExp.opt? SExp.nat? n with
     | some l => toString (lengthToByte l)
